@@ -76,7 +76,7 @@ class C07(Prop):
     shard = 100
     case_timeout = 20
     nontrivial_rule = ("random histories on real Container/Store/PriorityStore/FilterStore objects: 1-8 driver processes, "
-                       "amounts from {1,2,3,5,1/2} (plus rare invalid 0/-1), capacities 1..10 / k/2 (also for stores) / infinite, initial levels, "
+                       "amounts from {1,2,3,5,1/2} (plus rare invalid 0/-1); 10% EXACT-TYPED cases: int init/capacity/amounts/priorities at and above 2**53 with odd offsets, or fractions.Fraction thirds/tenths; capacities 1..10 / k/2 (also for stores) / infinite, initial levels, "
                        "items [value, tag, uid] that compare equal by value only (values/priorities from a 3-4 element set, so equal-but-distinct "
                        "items are the rule; 25% of the cases of every store kind use raw Python values tagged by type: int/float/bool/None/str/tuple, the falsy None, 0, 0.0, False, '' and () on purpose), "
                        "filters 'value = r mod m and tag = t' (tag/type filters separate equal values), "
@@ -121,7 +121,7 @@ class C07(Prop):
         if kind == "container":
             if rng.random() < 0.03:
                 return rng.choice(["0/1", "-1/1"])
-            return rng.choice(AMOUNTS)
+            return rng.choice(self._amounts)
         if op == "put":
             # an item is [value, tag, uid]: items of equal value compare EQUAL (==) although they are distinct
             # objects (distinct uid, possibly distinct tag); for PriorityStore the value is the priority.
@@ -158,11 +158,35 @@ class C07(Prop):
         else:
             cap = qj(rng.randint(1, 10) if kind == "container" else rng.choice([1, 1, 2, 2, 3, 4, 6, 10]))
         case = {"kind": kind, "cap": cap, "t0": rng.choice(["0/1", "0/1", "1/2", "3/1"])}
+        # EXACT-TYPED cases (a fixed share, 10%): the caller uses Python ints at and above 2**53 (odd offsets: off the
+        # binary64 grid) or fractions.Fraction (thirds, tenths) for init / capacity / amounts / priorities.  int and
+        # Fraction arithmetic is exact, like the model's Q/Z, so any detour of the code through float shows.
+        exact = rng.choice(["int", "frac"]) if rng.random() < 0.10 else None
+        self._amounts = AMOUNTS
+        if exact:
+            case["exact"] = exact
+            if kind == "container":
+                if exact == "int":
+                    base = rng.choice([2 ** 53, 2 ** 53, 2 ** 60, 2 ** 64]) + rng.choice([1, 3, 5, 7, 1025])
+                    init = base + rng.randint(0, 4)
+                    case["cap"] = None if rng.random() < 0.3 else qj(init + rng.randint(0, 6))
+                    case["init"] = qj(init)
+                    self._amounts = ["1/1", "1/1", "2/1", "3/1", "5/1", qj(init + 3), qj(base + 1)]
+                else:
+                    den = rng.choice([3, 10, 10, 30])
+                    top = rng.randint(2, 12)
+                    case["cap"] = None if rng.random() < 0.3 else qj(F(top, den))
+                    case["init"] = qj(F(rng.randint(0, top), den))
+                    self._amounts = [qj(F(k, den)) for k in (1, 1, 2, 3, 4)] + ["1/1"]
+            elif exact == "int":
+                case["cap"] = rng.choice([qj(2 ** 53 + 1), qj(2 ** 64 + 3), cap])
+            else:
+                case["cap"] = rng.choice([qj(F(rng.randint(3, 12), 3)), qj(F(rng.randint(5, 35), 10)), cap])
         self._uid = 0
-        self._raw = kind != "container" and rng.random() < 0.25
+        self._raw = kind != "container" and not exact and rng.random() < 0.25
         if kind != "container":
             case["raw"] = self._raw
-        if kind == "container":
+        if kind == "container" and not exact:
             top = fr(cap) if cap is not None else F(10)
             case["init"] = qj(min(top, F(rng.randint(0, 20), 2)) if rng.random() < 0.8 else top)
         nproc = rng.choice([1, 2, 2, 3, 3, 4, 4, 5, 6, 8])
@@ -196,14 +220,31 @@ class C07(Prop):
         kind = case["kind"]
         cap = None if case["cap"] is None else fr(case["cap"])
 
-        def num(x):      # exact dyadic -> the number the user would write
+        def num(x):      # exact dyadic -> the number the user would write (times, and amounts of ordinary cases)
             x = fr(x)
             return int(x) if x.denominator == 1 else float(x)
 
-        pcap = float("inf") if cap is None else num(cap)
+        exact = case.get("exact")
+
+        def anum(x):     # amounts / levels / capacities: exact-typed cases never touch float
+            x = fr(x)
+            if exact == "frac":
+                return x
+            if exact == "int":
+                return int(x) if x.denominator == 1 else x      # a fractional capacity stays a Fraction: still exact
+            return num(x)
+
+        def prio_of(v):  # the priority a PriorityItem of canonical value v is put with (order preserving)
+            if exact == "int":
+                return 2 ** 53 + 1 + v          # neighbours that binary64 cannot tell apart
+            if exact == "frac":
+                return F(1, 3) + F(v, 10)
+            return v
+
+        pcap = float("inf") if cap is None else anum(cap)
         env = Environment(initial_time=num(case["t0"]))
         if kind == "container":
-            res = Container(env, capacity=pcap, init=num(case["init"]))
+            res = Container(env, capacity=pcap, init=anum(case["init"]))
         elif kind == "store":
             res = Store(env, capacity=pcap)
         elif kind == "prio":
@@ -260,6 +301,8 @@ class C07(Prop):
             if kind == "prio":
                 if not isinstance(x, PriorityItem):
                     raise AssertionError(f"harness: PriorityStore holds/delivers {x!r}")
+                if isinstance(x.item, Item) and x.priority != prio_of(x.item.v):
+                    raise AssertionError(f"harness: priority {x.priority!r} of an item put with {prio_of(x.item.v)!r}")
                 x = x.item
             if isinstance(x, Item):
                 return [x.v, x.tag, x.uid]
@@ -290,10 +333,10 @@ class C07(Prop):
 
         def mk(op, p):
             if kind == "container":
-                return res.put(num(p)) if op == "put" else res.get(num(p))
+                return res.put(anum(p)) if op == "put" else res.get(anum(p))
             if op == "put":
                 it = raw_item(p[0], p[1]) if raw else Item(p[0], p[1], p[2])
-                return res.put(PriorityItem(p[0], it) if kind == "prio" else it)
+                return res.put(PriorityItem(prio_of(p[0]), it) if kind == "prio" else it)
             if kind == "filter":
                 m, r, t = p
                 if raw:
@@ -589,7 +632,7 @@ class C07(Prop):
                 if lv < 0 or (cap is not None and lv > cap):
                     bad(f"level-out-of-bounds: {where}: level {lv}, capacity {case['cap']}")
                 if lv != level:
-                    bad(f"level-not-conserved: {where}: level {lv}, init + granted puts - granted gets = {level}")
+                    bad(f"level-not-conserved: {where}: level {lv} is not EXACTLY init + granted puts - granted gets = {level}")
             else:
                 if cap is not None and len(snap["c"]) > cap:
                     bad(f"store-over-capacity: {where}: {len(snap['c'])} items, capacity {case['cap']}")
@@ -636,6 +679,9 @@ class C07(Prop):
         if obs.get("error") is not None:
             return keys + ["raised"]
         acts = obs["acts"]
+        if case.get("exact"):
+            keys.append("exact-typed:" + case["exact"])
+            keys.append(case["kind"] + ":exact-typed")
         if case.get("raw"):
             keys.append(case["kind"] + ":raw-python-values")
             puts = [r["a"][1] for r in acts if r["a"][0] == "put"]
